@@ -371,7 +371,7 @@ func main() {
 		ID:    "C20",
 		Level: "model_checking",
 		Rule: "every sequence of attribute lookups over the alphabet up to the depth bound, from an empty attribute cache and from caches pre-filled to just below / at the (lowered) limit, " +
-			"crossed with every eviction-order alternative within the deviation bound; plus every (object, name) pair and every short sequence after pre-filling past the real limit of 1000; plus, for 9 first steps (field, value/pointer-receiver methods returning values, pointers, slices, the receiver itself) x every ordered pair of 6 objects x 7 holding shapes (set, list and hash literals, macro arguments, intervening lookups, loops), an answer held across later lookups of the same name on other values must show what the same chain shows immediately; plus every ordered pair of alphabet lookups inside ONE render (cold and warm cache), each answering what it answers alone; non-trivial = the history repeats a name on a different type or crosses the eviction threshold",
+			"crossed with every eviction-order alternative within the deviation bound; plus every (object, name) pair and every short sequence after pre-filling past the real limit of 1000; plus, for 9 first steps (field, value/pointer-receiver methods returning values, pointers, slices, the receiver itself) x every ordered pair of 6 objects x 7 holding shapes (set, list and hash literals, macro arguments, intervening lookups, loops), an answer held across later lookups of the same name on other values must show what the same chain shows immediately; plus every ordered pair of alphabet lookups inside ONE render (cold and warm cache), each answering what it answers alone; plus one render that looks a pair up 2 / 70 times, then enough other pairs to evict it, and ends, after which the pair is looked up again; non-trivial = the history repeats a name on a different type or crosses the eviction threshold",
 		Assumptions: []string{
 			"the cache limit is lowered through an overlay-only accessor added to package twig at build time (black-box mode with the real limit if that file does not compile against the tree)",
 			"eviction order: the map iteration inside the eviction is an explorer choice (rotations, reversal, transpositions of the canonical order for more than 4 entries); time is a logical clock",
@@ -426,6 +426,8 @@ func run(t *vlib.T) {
 	heldCases(t)
 	// (1c) several lookups inside one render (pair.go)
 	pairCases(t)
+	// (1d) one render that hits a pair, evicts it and ends; then the pair again (longrender.go)
+	longRenderCases(t)
 
 	// (2) histories with a lowered limit, from empty and pre-filled caches
 	for _, limit := range limits {
